@@ -170,6 +170,36 @@ func c11(c *Ctx) {
 				continue // clearing: always allowed
 			}
 			key := fmt.Sprintf("C11.primary/%s/isPrimary=true", fid)
+			// e.isPrimary = (e == X) inside a complete loop over km.entries: X becomes
+			// the one primary, every other entry is cleared by the same store
+			if bo, isB := guard.Strip(val).(*ssa.BinOp); isB && bo.Op == token.EQL {
+				var target ssa.Value
+				switch {
+				case sameObj(bo.X, base):
+					target = bo.Y
+				case sameObj(bo.Y, base):
+					target = bo.X
+				}
+				if ia := elemOfRangeAny(guard.Strip(base)); target != nil && ia != nil && isLoadOfField(ia.X, "entries") {
+					if statusSubset(p, guard.InstrFacts(w.ins), target, enabled) {
+						r.Ok("C11.primary", key, p.Pos(w.ins.Pos()), "isPrimary = (entry == target) with target.status == Enabled dominating")
+					} else {
+						r.Bad("C11.primary", key, p.Pos(w.ins.Pos()), "an entry is made primary without a dominating check that its status is Enabled")
+					}
+					skey := "C11.single/" + fid + "/after isPrimary=true"
+					rl := rangeLoopOf(ia)
+					unguarded := rl != nil
+					if rl != nil {
+						for _, f := range guard.BlockFacts(w.ins.Block()) {
+							if blk := f.Cond.(ssa.Instruction).Block(); blk != rl.Header && rl.Blocks[blk] {
+								unguarded = false
+							}
+						}
+					}
+					r.Check(rl != nil && rl.Complete && unguarded, "C11.single", skey, p.Pos(w.ins.Pos()), "the loop assigning isPrimary = (entry == target) does not cover every entry unconditionally", "one complete unguarded loop assigns every entry's flag")
+					continue
+				}
+			}
 			if statusSubset(p, guard.InstrFacts(w.ins), base, enabled) {
 				r.Ok("C11.primary", key, p.Pos(w.ins.Pos()), "dominated by status == Enabled of the same entry")
 			} else {
@@ -345,7 +375,7 @@ func hasFieldFactBool(facts []guard.Fact, base ssa.Value, field string, want boo
 }
 
 // sameObj: the two pointer values are the same SSA value.
-func sameObj(a, b ssa.Value) bool { return guard.Strip(a) == guard.Strip(b) }
+func sameObj(a, b ssa.Value) bool { return guard.Strip(a) == guard.Strip(b) || guard.SameValue(a, b) }
 
 // hasFieldFact: facts contain base.field <op> constant.
 func hasFieldFact(facts []guard.Fact, base ssa.Value, field string, op token.Token, c constant.Value) bool {
@@ -600,6 +630,14 @@ func clearingLoop(fn *ssa.Function, primary ssa.Value) (*rangeLoop, string) {
 					((sameObj(bx, base) && sameObj(by, primary)) || (sameObj(by, base) && sameObj(bx, primary))) {
 					continue
 				}
+				// the element itself is not the new primary (pointer inequality)
+				if isC && op == token.NEQ && primary != nil && ((sameObj(x, base) && sameObj(y, primary)) || (sameObj(y, base) && sameObj(x, primary))) {
+					continue
+				}
+				// the index is not the new primary's index
+				if isC && op == token.NEQ && primary != nil && (isIndexOf(x, rl, y, primary) || isIndexOf(y, rl, x, primary)) {
+					continue
+				}
 				why = "the clearing store is guarded by an extra condition (" + factString(f) + "), so some other entry may stay primary"
 				return
 			}
@@ -607,6 +645,21 @@ func clearingLoop(fn *ssa.Function, primary ssa.Value) (*rangeLoop, string) {
 		found = rl
 	})
 	return found, why
+}
+
+// isIndexOf: li is the loop's index value and pi the index at which primary
+// sits in the same slice: primary = entries[pi], or (primary, pi) are the two
+// results of one findEntry call.
+func isIndexOf(li ssa.Value, rl *rangeLoop, pi ssa.Value, primary ssa.Value) bool {
+	if guard.Strip(li) != guard.Strip(rl.Index) {
+		return false
+	}
+	if ia := elemOfRangeAny(guard.Strip(primary)); ia != nil && isLoadOfField(ia.X, "entries") && guard.SameValue(ia.Index, pi) {
+		return true
+	}
+	pc, pidx := guard.CallOf(primary)
+	ic, iidx := guard.CallOf(pi)
+	return pc != nil && pc == ic && pidx == 0 && iidx == 1 && strings.HasSuffix(guard.CalleeName(&pc.Call), "keyset.findEntry")
 }
 
 // c11Append checks an append of a new entry onto km.entries.
